@@ -486,6 +486,7 @@ def c09c(chk):
         gets = an.calls(f, POP_MAP + "::get")
         uoe = an.calls(f, "core::option::Option::<T>::unwrap_or_else")
         ok = False
+        why = "neither get(..).unwrap_or_else(|| insert(..)) nor match get(..) { Some(id) => id, None => insert(..) }"
         if len(gets) == 1 and len(uoe) == 1:
             recv = op_local(uoe[0][1]["args"][0])
             cl = None
@@ -496,8 +497,29 @@ def c09c(chk):
             ins = cl is not None and len(an.calls(cl, POP_MAP + "::insert")) == 1 and len(list(cl.calls())) == 1
             same_name = _param_root_owned(f, gets[0][1]["args"][1]) == 2
             ok = recv is not None and f.copy_root(recv) == an.call_dest_local(gets[0][1]) and ins and same_name
+            why = "unwrap_or_else form"
+        elif len(gets) == 1:
+            # match form: on the Some edge the payload is returned, on the None edge insert(name) is
+            ins = an.calls(f, POP_MAP + "::insert")
+            sws = an.switches_on_call_result(f, gets[0][0])
+            if len(ins) == 1 and len(sws) == 1:
+                sb = sws[0][0]
+                st = f.term(sb)
+                some_t, none_t = an.edge_target(st, 1), an.edge_target(st, 0)
+                ins_on_none = an.dominated_by_edge(f, sb, none_t, ins[0][0]) and P(ins[0][1]["dest"])[0] == 0
+                ret_payload = False
+                for b2 in an.arm_region(f, sb, some_t):
+                    for s2 in f.stmts(b2):
+                        if s2["k"] == "assign" and P(s2["place"])[0] == 0 and s2["rv"]["k"] == "use":
+                            q = op_place(s2["rv"]["op"])
+                            chain = pure_move_chain(f, s2["rv"]["op"]) if q else None
+                            if chain and any(pl[0] == an.call_dest_local(gets[0][1]) and any(e[0] == "downcast" and e[1] == "Some" for e in pl[1]) for pl in chain):
+                                ret_payload = True
+                same_name = _param_root_owned(f, gets[0][1]["args"][1]) == 2
+                ok = ins_on_none and ret_payload and same_name
+                why = "match form: insert only on the None edge=%s, Some edge returns the found id=%s" % (ins_on_none, ret_payload)
         chk.ob("C09.c", "population::Map::get_or_insert=get.unwrap_or_else(insert)", ok, f.loc(),
-               "an existing label keeps its id, a new label gets the next insertion index")
+               "an existing label keeps its id, a new label gets the next insertion index (%s)" % why)
 
 
 def _param_root_owned(f, op):
